@@ -104,6 +104,11 @@ class EngineC18:
             # lopsided: one mode clearly longer than the others (where the work is split then depends on the labelling)
             shape = [sw.randint(2, 3) for _ in range(N)]
             shape[sw.choice([0, 0, 3, 3, 1, 2])] = sw.randint(6, 10)
+        if N >= 3 and sw.random() < 0.12:
+            # a mode of size one (mostly the first one): kernels that special-case "nothing to the left / right"
+            shape[sw.choice([0, 0, 0, N - 1, 1])] = 1
+            if N == 4 and sw.random() < 0.5:
+                shape = [1, sw.randint(3, 5), sw.randint(3, 4), sw.randint(2, 3)]
         size = int(np.prod(shape))
         apr = alg.startswith("cp_apr")
         x = np.zeros(shape)
